@@ -165,3 +165,46 @@ Proof.
 Qed.
 
 End Iupac.
+
+(* ---------------- codes as nucleotide sets: land = intersection, lor = union, subset ------------- *)
+(* pure facts about 4-bit codes, decided by enumerating all 256 pairs in the kernel *)
+Definition codes16' : list N := map N.of_nat (seq 0 16).
+Definition set_inter (a b : list N) : list N := filter (fun x => inb x b) a.
+Definition set_union (a b : list N) : list N := filter (fun x => inb x a || inb x b) [dA; dC; dG; dT].
+Definition set_subset (a b : list N) : bool := forallb (fun x => inb x b) a.
+Definition nl_eqb (a b : list N) : bool := if list_eq_dec N.eq_dec a b then true else false.
+
+Definition set_facts_ok (x y : N) : bool :=
+  nl_eqb (code_set (N.land x y)) (set_inter (code_set x) (code_set y)) &&
+  nl_eqb (code_set (N.lor x y)) (set_union (code_set x) (code_set y)) &&
+  Bool.eqb (N.eqb (N.land x y) y) (set_subset (code_set y) (code_set x)) &&
+  N.eqb (set_code (code_set x)) x.
+
+Lemma set_facts_all : forallb (fun x => forallb (set_facts_ok x) codes16') codes16' = true.
+Proof. vm_compute. reflexivity. Qed.
+
+Lemma codes16'_in x : (x < 16)%N -> In x codes16'.
+Proof.
+  intros H. unfold codes16'. apply in_map_iff. exists (N.to_nat x). split; [apply N2Nat.id|].
+  apply in_seq. lia.
+Qed.
+
+Theorem iupac_set_algebra x y : (x < 16)%N -> (y < 16)%N ->
+  code_set (N.land x y) = set_inter (code_set x) (code_set y) /\
+  code_set (N.lor x y) = set_union (code_set x) (code_set y) /\
+  (N.land x y = y <-> set_subset (code_set y) (code_set x) = true) /\
+  set_code (code_set x) = x.
+Proof.
+  intros Hx Hy. pose proof set_facts_all as H. rewrite forallb_forall in H.
+  specialize (H x (codes16'_in x Hx)). rewrite forallb_forall in H.
+  specialize (H y (codes16'_in y Hy)). unfold set_facts_ok in H.
+  apply andb_prop in H. destruct H as [H H4]. apply andb_prop in H. destruct H as [H H3].
+  apply andb_prop in H. destruct H as [H1 H2].
+  unfold nl_eqb in H1, H2.
+  destruct (list_eq_dec N.eq_dec (code_set (N.land x y)) (set_inter (code_set x) (code_set y))); [|discriminate].
+  destruct (list_eq_dec N.eq_dec (code_set (N.lor x y)) (set_union (code_set x) (code_set y))); [|discriminate].
+  repeat split; try assumption.
+  - intros E. apply N.eqb_eq in E. rewrite E in H3. symmetry. apply eqb_prop. exact H3.
+  - intros E. rewrite E in H3. apply eqb_prop in H3. apply N.eqb_eq. exact H3.
+  - apply N.eqb_eq. exact H4.
+Qed.
